@@ -133,6 +133,19 @@ pub fn check(case: &Case, rec: &mut Rec) -> Option<Failure> {
     None
 }
 
+/// band multipliers: a third small dyadic rationals (exact in every float format), a third "decimal" factors as users
+/// write them (not representable in binary, let alone in f32 or in a few mantissa bits), a third random ones with a
+/// full 53-bit mantissa in (−4, 12), any sign
+pub const DYADIC_MULTS: &[f64] = &[0.5, 1.0, 2.0, 3.0, 10.0, 0.0, -1.0, -2.5];
+pub const DECIMAL_MULTS: &[f64] = &[2.1, 1.3, 1.618, 1.0 / 3.0, 0.1, 2.2, 2.3, 1.9, 0.7, 2.00001, 3.3, -1.1, -0.3, 1.4142135623730951, 2.718281828459045, 1e-3, 7.77];
+fn multiplier(r: &mut Runner) -> f64 {
+    match r.rng.below(3) {
+        0 => *r.rng.pick(DYADIC_MULTS),
+        1 => *r.rng.pick(DECIMAL_MULTS),
+        _ => r.rng.unit() * 16.0 - 4.0,
+    }
+}
+
 pub fn generate(r: &mut Runner) {
     let cases = if r.tier == Tier::Quick { 640 } else { 24000 };
     r.log_every = if r.tier == Tier::Quick { 7 } else { 307 };
@@ -141,7 +154,7 @@ pub fn generate(r: &mut Runner) {
         let name = INDS[i % INDS.len()];
         let (np, nm) = crate::ind::arity(name).unwrap();
         let ps: Vec<usize> = (0..np).map(|_| gen::period(&mut r.rng, 200)).collect();
-        let ms: Vec<f64> = (0..nm).map(|_| *r.rng.pick(&[0.5, 1.0, 2.0, 3.0, 10.0, 0.0, -1.0, -2.5])).collect();
+        let ms: Vec<f64> = (0..nm).map(|_| multiplier(r)).collect();
         let len = r.rng.range(1, maxlen);
         let regime = *r.rng.pick(gen::REGIMES);
         let scale = *r.rng.pick(&[1e-17, 1e-9, 1e-2, 1.0, 100.0, 1e6]);
@@ -160,4 +173,4 @@ pub fn generate(r: &mut Runner) {
     }
 }
 
-pub const RULE: &str = "8 composites × periods to 200 × multipliers {0.5,1,2,3,10,0,-1,-2.5} × finite scalar streams (any sign where the composite accepts it) / valid bars with close != (high+low)/2 in 9 regimes; at every step the composite's outputs are compared with separately constructed PUBLIC parts (SMA, StandardDeviation, MAD, FastStochastic, EMA×3, TrueRange, ATR, Minimum, Maximum) fed the same stream and combined as documented: tau(t)·M (×condition number for PPO and CCI, on variances for the Bollinger half-width). Non-trivial = longer than the largest period.";
+pub const RULE: &str = "8 composites × periods to 200 × multipliers (a third each: the dyadic set {0.5,1,2,3,10,0,-1,-2.5}; decimal factors not representable in binary/f32 {2.1,1.3,1.618,1/3,0.1,2.2,2.3,1.9,0.7,2.00001,3.3,-1.1,-0.3,sqrt 2,e,1e-3,7.77}; uniformly random 53-bit values in [−4,12)) × finite scalar streams (half strictly positive, half of any sign — centred on zero with probability 1/2 — for every composite with a scalar path, PPO included: its division by the slow EMA is judged whenever M/|slow EMA| <= 1e6, negative slow EMAs too) / valid bars with close != (high+low)/2 in 9 regimes; at every step the composite's outputs are compared with separately constructed PUBLIC parts (SMA, StandardDeviation, MAD, FastStochastic, EMA×3, TrueRange, ATR, Minimum, Maximum) fed the same stream and combined as documented: tau(t)·M (×condition number for PPO and CCI, on variances for the Bollinger half-width). Non-trivial = longer than the largest period.";
